@@ -534,7 +534,11 @@ def pairing_clause(model, rep, funcs):
                 wb = [x for x in wb if isinstance(x[0], ast.AST)]
                 post = [c for c in ast.walk(back) if isinstance(c, ast.Call) and isinstance(c.func, ast.Attribute) and c.func.attr.startswith("_post_align")]
                 names = (msrc(b["l2"][1]), msrc(b["r"][1]))
-                if not post or dotted(post[0].func.value) != names[0] or not post[0].args or norm_src(post[0].args[0]) != names[1]:
+                from .common import positional_view
+                pv_ = positional_view(model, f, post[0]) if post else []
+                if not pv_ and post and post[0].keywords:
+                    pv_ = [k_.value for k_ in post[0].keywords if k_.arg == "results"]
+                if not post or dotted(post[0].func.value) != names[0] or not pv_ or norm_src(pv_[0]) != names[1]:
                     ok, det = False, "write-back does not use the zipped (loader, results) pair"
         rep.ob("O", a, "per-group results are paired with the group they were computed for (same iteration order of self)", ok, det,
                node=f.node, fn=f, clause="1 order", stmt=f"def {f.name} zip")
